@@ -43,7 +43,12 @@ pub fn line_bytes(k: usize, len: usize, kind: &str) -> Vec<u8> {
     while s.len() < len {
         s.push('_');
     }
-    s.into_bytes()
+    let mut b = s.into_bytes();
+    if kind == "bad" && len >= 1 {
+        // not UTF-8: a Latin-1 letter in an otherwise ASCII line (kind "bad" has ASCII filler)
+        b[len / 2] = 0xE9;
+    }
+    b
 }
 
 pub fn text_of(case: &Value) -> Vec<u8> {
@@ -273,6 +278,20 @@ impl Engine for C17 {
             });
             case["calls"] = json!(6);
             case["mode"] = json!(r.pick(&["direct", "loop", "straight"]));
+            case["errors"] = json!([]);
+            case.as_object_mut().unwrap().remove("cr");
+            case.as_object_mut().unwrap().remove("stop_at");
+        }
+        if i % 53 == 7 && i % 200 != 199 && !case["lines"].as_array().unwrap().is_empty() {
+            // one line that is not valid UTF-8 (a text file in a legacy encoding): that call may fail or
+            // return some valid replacement text, but never a string that is not UTF-8, and the
+            // interpreter must survive it
+            let n = case["lines"].as_array().unwrap().len();
+            let k = r.usize(0, n - 1);
+            let len = case["lines"][k]["len"].as_u64().unwrap().clamp(1, 20_000);
+            case["lines"][k] = json!({"len": len, "kind": "bad"});
+            case["mode"] = json!(r.pick(&["direct", "straight", "loop"]));
+            case["calls"] = json!(n + 3);
             case["errors"] = json!([]);
             case.as_object_mut().unwrap().remove("cr");
             case.as_object_mut().unwrap().remove("stop_at");
@@ -538,10 +557,19 @@ impl Engine for C17 {
             }
         }
         // oracle
-        let err_expected = injected > 0;
+        let bad_line = |k: usize| expected.get(k).is_some_and(|e| std::str::from_utf8(e).is_err());
+        let has_bad = (0..expected.len()).any(bad_line);
+        res.count("inputs_with_a_line_that_is_not_utf8", u64::from(has_bad));
+        // an error is expected where one was injected, or where the line being read is not text
+        let err_expected = injected > 0 || (failed.is_some() && bad_line(got.len()));
         for (k, g) in got.iter().enumerate() {
             if std::str::from_utf8(g).is_err() {
                 return res.violation("invalid-utf8", format!("call {k} returned invalid UTF-8"));
+            }
+            if bad_line(k) {
+                // some valid replacement text: nothing more is demanded of this one call
+                res.count("info_non_utf8_line_returned_as_replacement_text", 1);
+                continue;
             }
             if k >= expected.len() || *g != expected[k] {
                 let want = expected.get(k).cloned().unwrap_or_default();
